@@ -988,13 +988,19 @@ def r07_11(ctx, rr):
     if len(bodies) < 2:
         raise AnchorMissing("expected try_build_func and try_build_filter for the BitFieldVec backend, found %d" % len(bodies))
     for b in bodies:
-        ctors = [n for n in walk(b.body) if n.get("k") == "Call" and (F.callee(n) or "").startswith("bits::bit_field_vec::BitFieldVec") and strip_generics(F.callee(n)).split("::")[-1] in ("new", "new_unaligned", "with_capacity", "from_raw_parts")]
+        CT = ("new", "new_unaligned", "with_capacity", "from_raw_parts")
+        ctor_nodes = [n for n in walk(b.body) if n.get("k") == "Call" and (F.callee(n) or "").startswith("bits::bit_field_vec::BitFieldVec") and strip_generics(F.callee(n)).split("::")[-1] in CT]
+        ctors = [F.callee(n) for n in ctor_nodes]
+        # the constructor named as a function value (`BitFieldVec::<W>::new_unaligned` passed where a closure calling it was)
+        called = set(id(n["f"]) for n in walk(b.body) if n.get("k") == "Call" and isinstance(n.get("f"), dict))
+        ctors += [F.defpath(n) for n in walk(b.body) if n.get("k") == "Path" and n.get("res") == "def" and id(n) not in called
+                  and (F.defpath(n) or "").startswith("bits::bit_field_vec::BitFieldVec") and strip_generics(F.defpath(n)).split("::")[-1] in CT]
         rr.instances += 1
-        ok = bool(ctors) and all(strip_generics(F.callee(n)).split("::")[-1] == "new_unaligned" for n in ctors)
+        ok = bool(ctors) and all(strip_generics(c).split("::")[-1] == "new_unaligned" for c in ctors)
         key = "%s:backend-has-padding-word" % short_fn(b.key)
-        rr.ob(ok, key=key, sample={"fn": b.key, "constructors": [strip_generics(F.callee(n)).split("::")[-1] for n in ctors]})
+        rr.ob(ok, key=key, sample={"fn": b.key, "constructors": [strip_generics(c).split("::")[-1] for c in ctors]})
         if not ok:
-            rr.violate(key, "%s allocates the BitFieldVec backend with %s: get_unaligned / contains_unaligned on the resulting structure read past the last word for keys whose cells are at the end of the backend (BitFieldVec::new_unaligned adds the padding word they need)" % (b.key, [strip_generics(F.callee(n)).split("::")[-1] for n in ctors] or "no BitFieldVec constructor"), F.loc(ctors[0]) if ctors else b.span)
+            rr.violate(key, "%s allocates the BitFieldVec backend with %s: get_unaligned / contains_unaligned on the resulting structure read past the last word for keys whose cells are at the end of the backend (BitFieldVec::new_unaligned adds the padding word they need)" % (b.key, [strip_generics(c).split("::")[-1] for c in ctors] or "no BitFieldVec constructor"), F.loc(ctor_nodes[0]) if ctor_nodes else b.span)
 
 
 @rule("R20.4", props=["C20"], floor=2, title="a decoding lender re-creates its decoder on rewind the way its constructor created it (same constructor, same configuration calls)")
